@@ -1,0 +1,574 @@
+// Verification hook (compiled only with `--cfg hotstuff_verif`).
+//
+// In-memory stand-ins for `tokio::net::{TcpListener, TcpStream}` offering the API subset used by
+// this crate. Connections are ordered, reliable byte streams per direction; the writer side
+// re-assembles length-delimited frames so that an installed `Policy` can delay or cut the
+// connection at frame granularity, and a `Tap` observes every connect / frame / close.
+// All state is process-global (`reset_world` clears it between scenarios).
+use bytes::{Buf, Bytes, BytesMut};
+use std::collections::{HashMap, VecDeque};
+use std::io;
+use std::net::SocketAddr;
+use std::pin::Pin;
+use std::sync::atomic::{AtomicBool, Ordering};
+use std::sync::{Arc, Mutex};
+use std::task::{Context, Poll, Waker};
+use tokio::io::{AsyncRead, AsyncWrite, ReadBuf};
+use tokio::sync::mpsc;
+use tokio::time::{sleep, sleep_until, Duration, Instant};
+
+/// Frames announcing more than this are not re-assembled: the stream falls back to raw chunks.
+const REASSEMBLY_LIMIT: usize = 64 * 1024 * 1024;
+
+#[derive(Clone, Copy, Debug, PartialEq, Eq, Hash)]
+pub enum Dir {
+    /// From the dialling side to the listening side.
+    ToServer,
+    /// From the listening side back to the dialler.
+    ToClient,
+}
+
+#[derive(Clone, Debug)]
+pub struct ConnInfo {
+    pub id: u64,
+    /// The address that was dialled (the harness encodes the dialler's identity in its IP).
+    pub dialled: SocketAddr,
+}
+
+pub enum ConnectDecision {
+    Accept { latency_ms: u64 },
+    Refuse,
+    /// The connect call never completes.
+    Hang,
+}
+
+pub enum FrameDecision {
+    /// Make the frame readable `delay_ms` from now (never before what was written earlier).
+    Deliver { delay_ms: u64 },
+    /// The frame is lost and the connection is reset (earlier frames still arrive).
+    CutBefore,
+    /// The frame arrives, then the connection is reset.
+    CutAfter { delay_ms: u64 },
+    /// Only the first `bytes` bytes of the frame (header included) arrive, then a reset.
+    CutInside { bytes: usize, delay_ms: u64 },
+}
+
+pub trait Policy: Send {
+    fn on_connect(&mut self, dialled: SocketAddr, conn: u64) -> ConnectDecision;
+    /// `frame` is the payload without the 4-byte length prefix (or a raw chunk when `raw`).
+    fn on_frame(&mut self, conn: &ConnInfo, dir: Dir, idx: u64, frame: &[u8], raw: bool) -> FrameDecision;
+}
+
+#[derive(Clone, Debug)]
+pub enum TapEvent {
+    Connect { conn: u64, dialled: SocketAddr, ok: bool },
+    /// A frame was written (payload without length prefix); `lost` if a cut dropped it.
+    FrameOut { conn: u64, dialled: SocketAddr, dir: Dir, idx: u64, data: Bytes, raw: bool, lost: bool },
+    /// The frame's last byte became readable by the receiving side.
+    FrameIn { conn: u64, dialled: SocketAddr, dir: Dir, idx: u64, data: Bytes, raw: bool },
+    Closed { conn: u64, dialled: SocketAddr, dir: Dir, reset: bool },
+}
+
+pub type Tap = Box<dyn FnMut(TapEvent) + Send>;
+
+struct World {
+    listeners: HashMap<u16, (u64, mpsc::UnboundedSender<(TcpStream, SocketAddr)>)>,
+    conns: HashMap<u64, Arc<Conn>>,
+    next_id: u64,
+    policy: Option<Box<dyn Policy>>,
+    tap: Option<Tap>,
+}
+
+static WORLD: Mutex<Option<World>> = Mutex::new(None);
+
+fn with_world<R>(f: impl FnOnce(&mut World) -> R) -> R {
+    let mut guard = WORLD.lock().unwrap_or_else(|e| e.into_inner());
+    let world = guard.get_or_insert_with(|| World {
+        listeners: HashMap::new(),
+        conns: HashMap::new(),
+        next_id: 1,
+        policy: None,
+        tap: None,
+    });
+    f(world)
+}
+
+fn tap(event: TapEvent) {
+    with_world(|w| {
+        if let Some(t) = w.tap.as_mut() {
+            t(event)
+        }
+    })
+}
+
+/// Forget every listener, connection, policy and tap.
+pub fn reset_world() {
+    let mut guard = WORLD.lock().unwrap_or_else(|e| e.into_inner());
+    *guard = None;
+}
+
+pub fn set_policy(policy: Box<dyn Policy>) {
+    with_world(|w| w.policy = Some(policy));
+}
+
+pub fn set_tap(tap: Tap) {
+    with_world(|w| w.tap = Some(tap));
+}
+
+/// Reset every open connection selected by `pred` (both directions, immediately).
+pub fn reset_connections(mut pred: impl FnMut(&ConnInfo) -> bool) -> usize {
+    let victims: Vec<Arc<Conn>> = with_world(|w| {
+        w.conns.retain(|_, c| !c.dead.load(Ordering::SeqCst));
+        w.conns.values().filter(|c| pred(&c.info)).cloned().collect()
+    });
+    for c in &victims {
+        c.kill();
+    }
+    victims.len()
+}
+
+/// Close the listener bound to `port` (as if the process owning it had died).
+pub fn close_listener(port: u16) -> bool {
+    with_world(|w| w.listeners.remove(&port).is_some())
+}
+
+struct PipeState {
+    readable: VecDeque<Bytes>,
+    eof: bool,
+    reset: bool,
+    reader_gone: bool,
+    waker: Option<Waker>,
+}
+
+struct Pipe {
+    state: Mutex<PipeState>,
+}
+
+impl Pipe {
+    fn new() -> Arc<Self> {
+        Arc::new(Self {
+            state: Mutex::new(PipeState {
+                readable: VecDeque::new(),
+                eof: false,
+                reset: false,
+                reader_gone: false,
+                waker: None,
+            }),
+        })
+    }
+
+    fn lock(&self) -> std::sync::MutexGuard<'_, PipeState> {
+        self.state.lock().unwrap_or_else(|e| e.into_inner())
+    }
+
+    fn finish(&self, reset: bool) {
+        let waker = {
+            let mut s = self.lock();
+            if reset {
+                s.reset = true;
+            } else {
+                s.eof = true;
+            }
+            s.waker.take()
+        };
+        if let Some(w) = waker {
+            w.wake();
+        }
+    }
+}
+
+struct Conn {
+    info: ConnInfo,
+    dead: AtomicBool,
+    to_server: Arc<Pipe>,
+    to_client: Arc<Pipe>,
+}
+
+impl Conn {
+    fn kill(&self) {
+        if !self.dead.swap(true, Ordering::SeqCst) {
+            self.to_server.finish(true);
+            self.to_client.finish(true);
+            for dir in [Dir::ToServer, Dir::ToClient] {
+                tap(TapEvent::Closed {
+                    conn: self.info.id,
+                    dialled: self.info.dialled,
+                    dir,
+                    reset: true,
+                });
+            }
+        }
+    }
+}
+
+enum Item {
+    Data { at: Instant, data: Bytes, frame: Option<(u64, Bytes, bool)> },
+    Close { at: Instant, reset: bool },
+}
+
+async fn forward(conn: Arc<Conn>, dir: Dir, pipe: Arc<Pipe>, mut rx: mpsc::UnboundedReceiver<Item>) {
+    let mut closed = false;
+    while let Some(item) = rx.recv().await {
+        match item {
+            Item::Data { at, data, frame } => {
+                sleep_until(at).await;
+                if conn.dead.load(Ordering::SeqCst) {
+                    break;
+                }
+                let waker = {
+                    let mut s = pipe.lock();
+                    if s.reset || s.reader_gone {
+                        None
+                    } else {
+                        s.readable.push_back(data);
+                        s.waker.take()
+                    }
+                };
+                if let Some((idx, payload, raw)) = frame {
+                    tap(TapEvent::FrameIn {
+                        conn: conn.info.id,
+                        dialled: conn.info.dialled,
+                        dir,
+                        idx,
+                        data: payload,
+                        raw,
+                    });
+                }
+                if let Some(w) = waker {
+                    w.wake();
+                }
+            }
+            Item::Close { at, reset } => {
+                sleep_until(at).await;
+                closed = true;
+                if !conn.dead.load(Ordering::SeqCst) {
+                    pipe.finish(reset);
+                    tap(TapEvent::Closed {
+                        conn: conn.info.id,
+                        dialled: conn.info.dialled,
+                        dir,
+                        reset,
+                    });
+                    if reset {
+                        conn.kill();
+                    }
+                }
+                break;
+            }
+        }
+    }
+    if !closed && !conn.dead.load(Ordering::SeqCst) {
+        pipe.finish(false);
+    }
+}
+
+pub struct TcpStream {
+    conn: Arc<Conn>,
+    server_side: bool,
+    incoming: Arc<Pipe>,
+    outgoing: Arc<Pipe>,
+    tx: mpsc::UnboundedSender<Item>,
+    wbuf: BytesMut,
+    widx: u64,
+    raw: bool,
+    write_dead: bool,
+    last_release: Instant,
+}
+
+impl TcpStream {
+    pub async fn connect<A: std::net::ToSocketAddrs>(addr: A) -> io::Result<TcpStream> {
+        let dialled = addr
+            .to_socket_addrs()?
+            .next()
+            .ok_or_else(|| io::Error::new(io::ErrorKind::InvalidInput, "no address"))?;
+        let id = with_world(|w| {
+            let id = w.next_id;
+            w.next_id += 1;
+            id
+        });
+        let decision = with_world(|w| match w.policy.as_mut() {
+            Some(p) => p.on_connect(dialled, id),
+            None => ConnectDecision::Accept { latency_ms: 1 },
+        });
+        let latency = match decision {
+            ConnectDecision::Accept { latency_ms } => latency_ms.max(1),
+            ConnectDecision::Refuse => {
+                sleep(Duration::from_millis(1)).await;
+                tap(TapEvent::Connect { conn: id, dialled, ok: false });
+                return Err(io::Error::new(io::ErrorKind::ConnectionRefused, "refused by policy"));
+            }
+            ConnectDecision::Hang => {
+                futures::future::pending::<()>().await;
+                unreachable!()
+            }
+        };
+        sleep(Duration::from_millis(latency)).await;
+
+        let to_server = Pipe::new();
+        let to_client = Pipe::new();
+        let conn = Arc::new(Conn {
+            info: ConnInfo { id, dialled },
+            dead: AtomicBool::new(false),
+            to_server: to_server.clone(),
+            to_client: to_client.clone(),
+        });
+        let (tx_up, rx_up) = mpsc::unbounded_channel();
+        let (tx_down, rx_down) = mpsc::unbounded_channel();
+        let now = Instant::now();
+        let server = TcpStream {
+            conn: conn.clone(),
+            server_side: true,
+            incoming: to_server.clone(),
+            outgoing: to_client.clone(),
+            tx: tx_down,
+            wbuf: BytesMut::new(),
+            widx: 0,
+            raw: false,
+            write_dead: false,
+            last_release: now,
+        };
+        let client = TcpStream {
+            conn: conn.clone(),
+            server_side: false,
+            incoming: to_client.clone(),
+            outgoing: to_server.clone(),
+            tx: tx_up,
+            wbuf: BytesMut::new(),
+            widx: 0,
+            raw: false,
+            write_dead: false,
+            last_release: now,
+        };
+        let delivered = with_world(|w| match w.listeners.get(&dialled.port()) {
+            Some((_, tx)) => match tx.send((server, dialled)) {
+                Ok(()) => {
+                    w.conns.insert(id, conn.clone());
+                    true
+                }
+                Err(_) => false,
+            },
+            None => false,
+        });
+        tap(TapEvent::Connect { conn: id, dialled, ok: delivered });
+        if !delivered {
+            conn.dead.store(true, Ordering::SeqCst);
+            return Err(io::Error::new(io::ErrorKind::ConnectionRefused, "no listener"));
+        }
+        tokio::spawn(forward(conn.clone(), Dir::ToServer, to_server, rx_up));
+        tokio::spawn(forward(conn, Dir::ToClient, to_client, rx_down));
+        Ok(client)
+    }
+
+    /// Harness-side streams may switch frame re-assembly off: every write is one chunk.
+    pub fn set_raw(&mut self, raw: bool) {
+        self.raw = raw;
+    }
+
+    pub fn conn_id(&self) -> u64 {
+        self.conn.info.id
+    }
+
+    fn dir(&self) -> Dir {
+        if self.server_side {
+            Dir::ToClient
+        } else {
+            Dir::ToServer
+        }
+    }
+
+    fn submit(&mut self, wire: Bytes, payload: Bytes, raw: bool) {
+        let idx = self.widx;
+        self.widx += 1;
+        let dir = self.dir();
+        let info = self.conn.info.clone();
+        let decision = with_world(|w| match w.policy.as_mut() {
+            Some(p) => p.on_frame(&info, dir, idx, &payload, raw),
+            None => FrameDecision::Deliver { delay_ms: 1 },
+        });
+        let now = Instant::now();
+        let release = |delay_ms: u64, last: &mut Instant| {
+            let at = std::cmp::max(now + Duration::from_millis(delay_ms.max(1)), *last);
+            *last = at;
+            at
+        };
+        let mut lost = false;
+        match decision {
+            FrameDecision::Deliver { delay_ms } => {
+                let at = release(delay_ms, &mut self.last_release);
+                let _ = self.tx.send(Item::Data { at, data: wire, frame: Some((idx, payload.clone(), raw)) });
+            }
+            FrameDecision::CutBefore => {
+                lost = true;
+                let at = release(1, &mut self.last_release);
+                let _ = self.tx.send(Item::Close { at, reset: true });
+                self.write_dead = true;
+            }
+            FrameDecision::CutAfter { delay_ms } => {
+                let at = release(delay_ms, &mut self.last_release);
+                let _ = self.tx.send(Item::Data { at, data: wire, frame: Some((idx, payload.clone(), raw)) });
+                let _ = self.tx.send(Item::Close { at, reset: true });
+                self.write_dead = true;
+            }
+            FrameDecision::CutInside { bytes, delay_ms } => {
+                lost = true;
+                let at = release(delay_ms, &mut self.last_release);
+                let cut = bytes.min(wire.len().saturating_sub(1));
+                let _ = self.tx.send(Item::Data { at, data: wire.slice(..cut), frame: None });
+                let _ = self.tx.send(Item::Close { at, reset: true });
+                self.write_dead = true;
+            }
+        }
+        tap(TapEvent::FrameOut {
+            conn: info.id,
+            dialled: info.dialled,
+            dir,
+            idx,
+            data: payload,
+            raw,
+            lost,
+        });
+    }
+}
+
+impl AsyncRead for TcpStream {
+    fn poll_read(self: Pin<&mut Self>, cx: &mut Context<'_>, buf: &mut ReadBuf<'_>) -> Poll<io::Result<()>> {
+        let mut s = self.incoming.lock();
+        loop {
+            match s.readable.front_mut() {
+                Some(chunk) if chunk.is_empty() => {
+                    s.readable.pop_front();
+                }
+                Some(chunk) => {
+                    let n = chunk.len().min(buf.remaining());
+                    buf.put_slice(&chunk[..n]);
+                    chunk.advance(n);
+                    return Poll::Ready(Ok(()));
+                }
+                None => break,
+            }
+        }
+        if s.reset {
+            return Poll::Ready(Err(io::Error::new(io::ErrorKind::ConnectionReset, "connection reset")));
+        }
+        if s.eof {
+            return Poll::Ready(Ok(()));
+        }
+        s.waker = Some(cx.waker().clone());
+        Poll::Pending
+    }
+}
+
+impl AsyncWrite for TcpStream {
+    fn poll_write(mut self: Pin<&mut Self>, _cx: &mut Context<'_>, buf: &[u8]) -> Poll<io::Result<usize>> {
+        let this = &mut *self;
+        let gone = {
+            let s = this.outgoing.lock();
+            s.reader_gone || s.reset
+        };
+        if this.write_dead || gone || this.conn.dead.load(Ordering::SeqCst) {
+            return Poll::Ready(Err(io::Error::new(io::ErrorKind::BrokenPipe, "broken pipe")));
+        }
+        if this.raw {
+            let chunk = Bytes::copy_from_slice(buf);
+            this.submit(chunk.clone(), chunk, true);
+            return Poll::Ready(Ok(buf.len()));
+        }
+        this.wbuf.extend_from_slice(buf);
+        while !this.write_dead && this.wbuf.len() >= 4 {
+            let len = u32::from_be_bytes([this.wbuf[0], this.wbuf[1], this.wbuf[2], this.wbuf[3]]) as usize;
+            if len > REASSEMBLY_LIMIT {
+                this.raw = true;
+                let chunk = this.wbuf.split().freeze();
+                this.submit(chunk.clone(), chunk, true);
+                break;
+            }
+            if this.wbuf.len() < 4 + len {
+                break;
+            }
+            let wire = this.wbuf.split_to(4 + len).freeze();
+            let payload = wire.slice(4..);
+            this.submit(wire, payload, false);
+        }
+        Poll::Ready(Ok(buf.len()))
+    }
+
+    fn poll_flush(self: Pin<&mut Self>, _cx: &mut Context<'_>) -> Poll<io::Result<()>> {
+        Poll::Ready(Ok(()))
+    }
+
+    fn poll_shutdown(mut self: Pin<&mut Self>, _cx: &mut Context<'_>) -> Poll<io::Result<()>> {
+        if !self.write_dead {
+            self.write_dead = true;
+            let at = std::cmp::max(Instant::now() + Duration::from_millis(1), self.last_release);
+            let _ = self.tx.send(Item::Close { at, reset: false });
+        }
+        Poll::Ready(Ok(()))
+    }
+}
+
+impl Drop for TcpStream {
+    fn drop(&mut self) {
+        // Our outgoing direction ends (the peer reads EOF after what is in flight) ...
+        if !self.write_dead {
+            let at = std::cmp::max(Instant::now() + Duration::from_millis(1), self.last_release);
+            let _ = self.tx.send(Item::Close { at, reset: false });
+        }
+        // ... and nobody reads the incoming direction any more (the peer's writes fail).
+        let mut s = self.incoming.lock();
+        s.reader_gone = true;
+        s.readable.clear();
+    }
+}
+
+pub struct TcpListener {
+    id: u64,
+    port: u16,
+    rx: tokio::sync::Mutex<mpsc::UnboundedReceiver<(TcpStream, SocketAddr)>>,
+}
+
+impl TcpListener {
+    pub async fn bind<A: std::net::ToSocketAddrs>(addr: A) -> io::Result<TcpListener> {
+        let addr = addr
+            .to_socket_addrs()?
+            .next()
+            .ok_or_else(|| io::Error::new(io::ErrorKind::InvalidInput, "no address"))?;
+        let (tx, rx) = mpsc::unbounded_channel();
+        with_world(|w| {
+            if let Some((_, old)) = w.listeners.get(&addr.port()) {
+                if !old.is_closed() {
+                    return Err(io::Error::new(io::ErrorKind::AddrInUse, "address in use"));
+                }
+            }
+            let id = w.next_id;
+            w.next_id += 1;
+            w.listeners.insert(addr.port(), (id, tx));
+            Ok(TcpListener {
+                id,
+                port: addr.port(),
+                rx: tokio::sync::Mutex::new(rx),
+            })
+        })
+    }
+
+    pub async fn accept(&self) -> io::Result<(TcpStream, SocketAddr)> {
+        match self.rx.lock().await.recv().await {
+            Some(x) => Ok(x),
+            None => {
+                futures::future::pending::<()>().await;
+                unreachable!()
+            }
+        }
+    }
+}
+
+impl Drop for TcpListener {
+    fn drop(&mut self) {
+        let (id, port) = (self.id, self.port);
+        let mut guard = WORLD.lock().unwrap_or_else(|e| e.into_inner());
+        if let Some(w) = guard.as_mut() {
+            if w.listeners.get(&port).map(|(i, _)| *i) == Some(id) {
+                w.listeners.remove(&port);
+            }
+        }
+    }
+}
